@@ -893,7 +893,20 @@ pub fn parse_query(iter: &mut Iter<'_>) -> Query {
             };
             let right = match iter.peek().cloned().unwrap() {
                 Token::Eof => Conversion::None,
-                Token::Degree(deg) => Conversion::Degree(deg),
+                Token::Degree(deg) => {
+                    iter.next();
+                    match iter.peek().cloned().unwrap() {
+                        Token::Eof | Token::Newline | Token::Comment(_) => Conversion::Degree(deg),
+                        // Anything after the scale would make this a
+                        // compound unit, which isn't meaningful for a
+                        // temperature scale.
+                        _ => {
+                            return Query::Error(
+                                "Temperature conversions must not be compound units".to_string(),
+                            )
+                        }
+                    }
+                }
                 Token::Plus | Token::Minus => {
                     let mut old = iter.clone();
                     if let Some(off) = parse_offset(iter) {
